@@ -854,6 +854,111 @@ def rule_state_machine(ctx):
                         want = "Maximal" if enlarging else "None"
                         r.check(v == want, anchor + "|unsat", "state-after-unsat:%s" % v, "unsatisfiable => %s" % want, "after an unsatisfiable %s the computer reports %s instead of %s" % ("attempt to enlarge the current set" if enlarging else "fresh search", v, want), st_site.loc())
     r.floor(n, 2, "SAT calls of the maximal-extension computer with a state transition")
+    # state stores made without a SAT call (the grounded start, a discarded search): never Maximal, never None
+    sat_fns = set()
+    for b in prog.lib_bodies():
+        if b.kind != "closure" and b.impl and b.impl.get("self_adt") == MEC and any(prog.body_for_callee(callee_of(s), b) is not None and any(callee_matches(callee_of(x), SOLVE) for x in prog.body_for_callee(callee_of(s), b).calls()) for s in b.calls()):
+            sat_fns.add(b.id)
+    for b in sorted(prog.lib_bodies(), key=lambda x: x.id):
+        if b.kind == "closure" or not b.impl or b.impl.get("self_adt") != MEC or b.impl.get("trait") or b.id in sat_fns:
+            continue
+        if any(callee_matches(callee_of(x), SOLVE) for x in b.calls()):
+            continue
+        for st_site in b.sites():
+            nd = st_site.node
+            if st_site.si is None or nd["k"] != "assign" or not nd["dst"]["p"] or nd["dst"]["l"] != 1:
+                continue
+            vs = set()
+            if nd["rv"]["k"] == "aggregate" and nd["rv"]["agg"].get("path") == st["path"]:
+                vs.add(nd["rv"]["agg"].get("variant"))
+            elif nd["rv"]["k"] == "use":
+                k0 = op_const(nd["rv"]["ops"][0])
+                if k0 is not None and k0.get("variant") and "MaximalExtensionComputerState" in str(k0.get("enum") or k0.get("ty")):
+                    vs.add(k0["variant"])
+                for o in origins(b, nd["rv"]["ops"][0], transparent=()):
+                    if o.kind == "agg" and o.data.get("path") == st["path"]:
+                        vs.add(o.data.get("variant"))
+            for v in sorted(x for x in vs if x):
+                # a constructor starts in its initial state; afterwards a state reached without a SAT call tells nothing about maximality
+                if b.ret_ty.startswith(MEC) or b.ret_ty == "Self":
+                    continue
+                r.check(v not in ("Maximal", "None"), "%s|no-sat" % b.id, "state-without-sat:%s" % v, "a state set without a SAT call is neither Maximal nor None", "%s sets the state to %s without any SAT call: %s" % (b.path.rsplit("::", 1)[-1], v, "the set it holds is handed out as a maximal one although nothing was tried to enlarge it" if v == "Maximal" else "the search is declared finished without having looked"), st_site.loc())
+    # the step function: which kind of step each state leads to
+    step = [b for b in prog.lib_bodies() if b.kind != "closure" and b.impl and b.impl.get("self_adt") == MEC and not b.impl.get("trait") and any(sw for sw in switch_sites(b) if (switch_subject(b, sw) or (None, None))[1] and "MaximalExtensionComputerState" in place_ty_of_(b, switch_subject(b, sw)[0])) and len([sw for sw in switch_sites(b)]) == 1 and b.ret_ty == "()"]
+    idx = {str(v["idx"]): v["name"] for v in st["variants"]}
+
+    def kind_of(fn, depth=0):
+        ks = set()
+        for y in prog.with_closures(fn):
+            for s in y.calls():
+                c = callee_of(s)
+                t = prog.body_for_callee(c, y) if c else None
+                if c is None or (c.get("decl") == "<indirect>") or callee_matches(c, r"ops::function::Fn(Mut|Once)?::call"):
+                    for a in s.node.get("args") or []:
+                        for o in origins(y, a, transparent=("core::option::Option::as_ref", "core::option::Option::unwrap", "core::ops::deref::Deref::deref")):
+                            if o.kind == "param" and o.fields:
+                                f0 = str(o.fields[0])
+                                if "increase" in f0:
+                                    ks.add("enlarge")
+                                elif "discard_maximal" in f0:
+                                    ks.add("discard-maximal")
+                                elif "discard_current" in f0:
+                                    ks.add("discard-current")
+                if callee_matches(c, r"grounded_extension$"):
+                    ks.add("start")
+                if t is not None and t.impl and t.impl.get("self_adt") == MEC and depth < 2 and t is not fn:
+                    if any(callee_matches(callee_of(x), SOLVE) for x in t.calls()):
+                        lits = tags.literals_of(prog, y, s.node["args"][1], set()) if len(s.node["args"]) > 1 else []
+                        if any(l.role == "SEL" and l.pos is False for l in lits) and not any(l.role == "UNKNOWN" for l in lits):
+                            ks.add("fresh")
+                    else:
+                        ks |= kind_of(t, depth + 1)
+        return ks
+
+    for b in step[:1]:
+        sw = [x for x in switch_sites(b)][0]
+        table = {}
+        for v, tb in sw.node["targets"]:
+            region = {tb} | b.blocks_reachable_from(tb, avoid={sw.bb})
+            ks = set()
+            div = True
+            for x in region:
+                t_ = b.blocks[x]["term"]
+                if t_["k"] == "return":
+                    div = False
+                if t_["k"] == "call":
+                    t = prog.body_for_callee(t_.get("callee"), b) if t_.get("callee") else None
+                    if t is not None and t.impl and t.impl.get("self_adt") == MEC:
+                        ks |= kind_of(t)
+            # blocks shared by all arms (the common return) do not tell arms apart: only calls count
+            table[idx.get(v, v)] = "diverges" if (div and not ks) else "+".join(sorted(ks)) or "nothing"
+        want = {"Maximal": "discard-maximal+fresh", "Intermediate": "enlarge", "JustDiscarded": "fresh", "Init": "start", "None": "diverges"}
+        und = [k for k, v in table.items() if v == "nothing"]
+        anchor = "%s|steps" % b.id
+        if und or set(table) - set(want):
+            r.ok(anchor, "NOT decided: the step taken in state %s is not classified" % sorted(und or (set(table) - set(want))), b.loc())
+        else:
+            bad = {k: v for k, v in table.items() if want.get(k) != v}
+            r.check(not bad, anchor, "step-table:%s" % sorted(bad.items()), "Init: grounded start; Intermediate: try to enlarge; Maximal: block it and search afresh; JustDiscarded: search afresh; None: no step", "the step function takes, in state %s, the step `%s` instead of `%s`" % (sorted(bad)[0] if bad else "", bad.get(sorted(bad)[0]) if bad else "", want.get(sorted(bad)[0]) if bad else ""), b.loc())
+    # the computer's clauses die with it: Drop asserts the selector
+    drops = [b for b in prog.lib_bodies() if b.kind != "closure" and b.impl and b.impl.get("self_adt") == MEC and (b.impl.get("trait") or "").endswith("Drop")]
+    for b in drops:
+        adds = [s for s in b.calls() if callee_matches(callee_of(s), r"sat_solver::SatSolver::add_clause$")]
+        for s in adds:
+            lits = tags.literals_of(prog, b, s.node["args"][1], set())
+            sel = [l for l in lits if l.role == "SEL"]
+            if len(lits) == 1 and sel:
+                r.check(sel[0].pos is True, "%s|drop" % b.id, "drop-retires-negatively", "dropping the computer asserts its selector: every clause it added (each carries the selector) is satisfied for good", "dropping the computer adds the unit clause of the *negated* selector: the blocking clauses it added stay in force for every later search on the same solver", s.loc())
+            else:
+                r.ok("%s|drop" % b.id, "NOT decided: the clause added on drop is not the unit clause of the selector (%s)" % lits, s.loc())
+    if not drops:
+        r.ok("%s|drop" % MEC, "NOT decided: no Drop impl on the computer", None)
+
+
+def place_ty_of_(body, place):
+    from .satlayer import place_ty
+
+    return place_ty(body, place) or body.local_ty(place["l"])
 
 
 def rule_query_scoped_decomposition(ctx):
